@@ -1010,6 +1010,11 @@ func (loc *Location) ResolveService(ctx *Context, name string) (string, error) {
 
 	urls, given := loc.Control().Services[name]
 	if given {
+		if len(urls) == 0 {
+			// (rand.Intn(0) panics, and not in the script
+			// engine, where a panic is caught.)
+			return "", fmt.Errorf("no URL for service '%s'", name)
+		}
 		url := urls[rand.Intn(len(urls))]
 		Log(DEBUG, ctx, "System.resolveService", "service", name, "urls", urls, "url", url)
 		return url, nil
